@@ -44,12 +44,12 @@ CLAIMED["C13"] = dict(
     note="Nothing assumed beyond the common base (strings are byte sequences). Not yet under contract: the `like` arm of matchStatement that feeds Match (selected node must be a string) - part of C11.",
     design="DESIGN.md §3 C13")
 CLAIMED["C20"] = dict(
-    text="Proof of the frame condition: 112 read-only operations (token accessors, IsValidAt/IsValidNow, ExecutionAllowed / ExecutionAllowedWithArgsHook and the three verify* stages, "
-         "loadProofs, Policy.Match / PartialMatch, glob.Match, resolveSliceIndices, Args.{GetNode,Iter,ToIPLD,Equals,String,ReadOnly,Clone,Validate}, Meta.{Get*,Iter,Equals,String,ReadOnly,Clone}, the args.ReadOnly and meta.ReadOnly facades (every method but WriteableClone), Policy.String and the String method of each of the five statement kinds, sealing and encoding (toIPLD, Encode, ToSealed, ToSealedWriter of both token types: they change only the ghost signing count and the caller's writer), statementToIPLD / statementsToIPLD, Selector.String, Command.Join / Segments) "
+    text="Proof of the frame condition: 119 read-only operations (token accessors, IsValidAt/IsValidNow, ExecutionAllowed / ExecutionAllowedWithArgsHook and the three verify* stages, "
+         "loadProofs, Policy.Match / PartialMatch, glob.Match, resolveSliceIndices, Args.{GetNode,Iter,ToIPLD,Equals,String,ReadOnly,Clone,Validate}, Meta.{Get*,Iter,Equals,String,ReadOnly,Clone}, the args.ReadOnly and meta.ReadOnly facades (every method but WriteableClone), Policy.String and the String method of each of the five statement kinds, DID.PubKey with the two key unmarshallers of package did, container.Reader.GetAllDelegations / GetAllInvocations (iterator bodies), sealing and encoding (toIPLD, Encode, ToSealed, ToSealedWriter of both token types: they change only the ghost signing count and the caller's writer), statementToIPLD / statementsToIPLD, Selector.String, Command.Join / Segments) "
          "carry `assigns nothing`: for every store, map update, in-place append and every callee with a non-empty assigns set the obligation 'the written location was not allocated on entry' is discharged. "
          "By the meta-theorem of DESIGN.md §3 C20 this gives data-race freedom and repeatability for every interleaving.",
     note="Trusted: the frame => race-freedom meta-theorem; dependency calls on these paths (qp builders, printer.Sprint, DeepEqual, sort.Strings writes only its argument, slices.Clone returns fresh memory) write nothing reachable from their arguments; "
-         "function values passed in by the caller (iterator yield, args hook) are effect-free. The dynamic call Statement.String inside the printers goes through an assumed interface contract (writes nothing); each of the five implementations in the package is verified against that frame separately, and wfStmt (input validity) says a statement is one of the five. Not yet under contract for the frame: ReadOnly.WriteableClone (modelling limit, DESIGN.md 7.3), Selector.Select (verified inlined in its callers), the DID accessors other than Parse / String, container.Reader.GetAll* iterators.",
+         "function values passed in by the caller (iterator yield, args hook) are effect-free. The dynamic call Statement.String inside the printers goes through an assumed interface contract (writes nothing); each of the five implementations in the package is verified against that frame separately, and wfStmt (input validity) says a statement is one of the five. Not yet under contract for the frame: ReadOnly.WriteableClone (modelling limit, DESIGN.md 7.3), Selector.Select (verified inlined in its callers). In DID.PubKey the unmarshaller is a function value picked from a map: its application is assumed effect-free; the two unmarshallers defined in this repository are verified against the empty frame, the three libp2p ones are dependencies.",
     design="DESIGN.md §3 C20")
 CLAIMED["C06"] = dict(
     text="Proof of a relational post-condition over uninterpreted dependency functions (a data-flow theorem about the real bodies): envelope.Inspect is verified (iterator loop invariants) "
